@@ -196,29 +196,37 @@ impl Prepared {
 pub trait ParserVisitor {
     type Out;
     fn visit<'a, I: Input>(self, p: Parser<'a, I>) -> Self::Out;
+    /// Building the parser (library code: it may look at the source, e.g. its size hint) unwound.
+    fn construct_failed(self, end: End) -> Self::Out;
 }
 
 /// Build a real `Parser` over the requested environment and hand it to the visitor.
 pub fn with_parser<V: ParserVisitor>(kind: InputKind, prep: &Prepared, v: V) -> V::Out {
+    macro_rules! build {
+        ($e:expr) => {
+            match guarded(|| $e) {
+                Guarded::Ok(p) => v.visit(p),
+                Guarded::Panic(m) => v.construct_failed(End::Panic(m)),
+                Guarded::Hang(t) => v.construct_failed(End::Hang(t)),
+            }
+        };
+    }
     match kind {
         InputKind::Str => {
             if prep.eof_at.is_some() {
                 clock::probe(clock::Probe::SourceEofEarly);
             }
-            v.visit(Parser::new(Ticking(StrInput::new(&prep.cut))).keep_tags(prep.keep_tags))
+            build!(Parser::new(Ticking(StrInput::new(&prep.cut))).keep_tags(prep.keep_tags))
         }
-        InputKind::Buffered => v.visit(
-            Parser::new(Ticking(BufferedInput::new(SimSource::new(prep.chars.clone(), prep.eof_at))))
-                .keep_tags(prep.keep_tags),
-        ),
+        InputKind::Buffered => build!(Parser::new(Ticking(BufferedInput::new(SimSource::new(prep.chars.clone(), prep.eof_at)))).keep_tags(prep.keep_tags)),
         InputKind::BufferedBare => {
-            v.visit(Parser::new_from_iter(SimSource::new(prep.chars.clone(), prep.eof_at)).keep_tags(prep.keep_tags))
+            build!(Parser::new_from_iter(SimSource::new(prep.chars.clone(), prep.eof_at)).keep_tags(prep.keep_tags))
         }
         InputKind::Ring(cap, pol) => {
-            v.visit(Parser::new(SimRing::new(prep.chars.clone(), prep.eof_at, cap, pol)).keep_tags(prep.keep_tags))
+            build!(Parser::new(SimRing::new(prep.chars.clone(), prep.eof_at, cap, pol)).keep_tags(prep.keep_tags))
         }
         InputKind::Slice(cap) => {
-            v.visit(Parser::new(SimSlice::new(prep.chars.clone(), prep.eof_at, cap)).keep_tags(prep.keep_tags))
+            build!(Parser::new(SimSlice::new(prep.chars.clone(), prep.eof_at, cap)).keep_tags(prep.keep_tags))
         }
     }
 }
@@ -230,6 +238,9 @@ pub struct IterateAll {
 
 impl ParserVisitor for IterateAll {
     type Out = Trace;
+    fn construct_failed(self, end: End) -> Trace {
+        Trace { evs: Vec::new(), end }
+    }
     fn visit<'a, I: Input>(self, mut p: Parser<'a, I>) -> Trace {
         let mut evs = Vec::new();
         let g = guarded(|| loop {
